@@ -623,6 +623,38 @@ func checkDeriveKeyUse(c *Ctx, rule string) {
 func checkSaltedHash(c *Ctx, rule string) {
 	p := c.P
 	n := 0
+	// the salted buffer is hashed before it is wiped: between building it and hashing it no zeroing call takes it
+	nSum := 0
+	for _, fn := range p.FuncsIn("waddrmgr") {
+		for _, sum := range callsNamed(fn, "Sum512") {
+			buf := sum.Call.Args[0]
+			ap, ok := buf.(*ssa.Call)
+			if !ok || calleeShort(&ap.Call) != "append" {
+				continue
+			}
+			nSum++
+			q := &PathQuery{Fn: fn, Barrier: func(i ssa.Instruction) bool { return i == ssa.Instruction(sum) },
+				Target: func(i ssa.Instruction, _ *ssa.BasicBlock) bool {
+					call, ok := i.(*ssa.Call)
+					if !ok {
+						return false
+					}
+					g := call.Call.StaticCallee()
+					if g == nil || g.Pkg == nil || !strings.HasSuffix(g.Pkg.Pkg.Path(), "internal/zero") {
+						return false
+					}
+					for _, a := range call.Call.Args {
+						if a == buf {
+							return true
+						}
+					}
+					return false
+				}}
+			c.Check(rule, "salted-buffer-hashed-before-wiped:"+fn.Name(), sum.Pos(), len(q.From(ap)) == 0,
+				"the salted passphrase buffer is zeroed before it is hashed in "+fnName(fn)+": the cached hash depends only on the passphrase's length, so any wrong passphrase of the same length is accepted by the already-unlocked fast path")
+		}
+	}
+	c.Floor(rule, "salted passphrase hashes", nSum, 2)
 	for _, fn := range p.FuncsIn("waddrmgr") {
 		if fn.Name() == "lock" || fn.Name() == "init" {
 			continue
